@@ -309,31 +309,55 @@ func inRange(f *big.Float, k kind) bool {
 	return i.Cmp(lo) >= 0 && i.Cmp(hi) <= 0
 }
 
+// show prints the value of an integer expression twice: as it is, and widened
+// to 64 bits. Printing alone goes through a typed reflect value, which
+// truncates again and would hide a result left un-truncated in its register;
+// the widening conversion reads the register as it is.
+func (c f1case) show(expr string) string {
+	if c.k.float || c.fam == "arith" && isCmp(c.op) {
+		return "\tprintln(" + expr + ")\n"
+	}
+	w := "int64"
+	if !c.k.signed {
+		w = "uint64"
+	}
+	return "\tr := " + expr + "\n\tprintln(r, " + w + "(r), r > 100)\n"
+}
+
+func isCmp(op string) bool {
+	for _, o := range cmpOps {
+		if o == op {
+			return true
+		}
+	}
+	return false
+}
+
 func (c f1case) gen(i uint64) goprog.Case {
 	var body, key string
 	attrs := map[string]any{"family": c.fam, "op": c.op, "kind": c.k.name, "a": c.a.name, "form": c.form}
 	switch c.fam {
 	case "unary":
-		body = c.a.decl("x", c.k) + "\tprintln(" + c.op + "x)\n"
+		body = c.a.decl("x", c.k) + c.show(c.op+"x")
 		key = "family=unary op=" + c.op
 	case "arith":
 		attrs["b"] = c.b.name
 		switch c.form {
 		case "var/var":
-			body = c.a.decl("x", c.k) + c.b.decl("y", c.k) + "\tprintln(x " + c.op + " y)\n"
+			body = c.a.decl("x", c.k) + c.b.decl("y", c.k) + c.show("x "+c.op+" y")
 		case "var/const":
-			body = c.a.decl("x", c.k) + "\tprintln(x " + c.op + " " + paren(c.b.lit) + ")\n"
+			body = c.a.decl("x", c.k) + c.show("x "+c.op+" "+paren(c.b.lit))
 		case "const/var":
-			body = c.b.decl("y", c.k) + "\tprintln(" + paren(c.a.lit) + " " + c.op + " y)\n"
+			body = c.b.decl("y", c.k) + c.show(paren(c.a.lit)+" "+c.op+" y")
 		}
 		key = "family=arith op=" + c.op + " form=" + c.form
 	case "shift":
 		attrs["count"] = c.b.name
 		attrs["countkind"] = c.k2.name
 		if c.form == "var" {
-			body = c.a.decl("x", c.k) + "\tvar n " + c.k2.name + " = " + c.b.lit + "\n\tprintln(x " + c.op + " n)\n"
+			body = c.a.decl("x", c.k) + "\tvar n " + c.k2.name + " = " + c.b.lit + "\n" + c.show("x "+c.op+" n")
 		} else {
-			body = c.a.decl("x", c.k) + "\tprintln(x " + c.op + " " + c.k2.name + "(" + c.b.lit + "))\n"
+			body = c.a.decl("x", c.k) + c.show("x "+c.op+" "+c.k2.name+"("+c.b.lit+")")
 		}
 		key = "family=shift op=" + c.op + " count=" + c.cclass
 	case "conv":
@@ -345,7 +369,8 @@ func (c f1case) gen(i uint64) goprog.Case {
 		key = "family=conv from=integer to=string"
 	}
 	kindAttr := c.k.name
-	if c.fam == "conv" {
+	if c.fam == "conv" || c.fam == "unary" && c.op == "+" {
+		// the kinds are already in the key / unary plus has no per-kind code at all
 		kindAttr = ""
 	}
 	return goprog.Case{Body: body, Key: key, Kind: kindAttr, Attrs: attrs}
